@@ -214,9 +214,18 @@ impl<C: Config> DirtyWorker<C> {
         let mut counter = 0;
         let mut pushed = false;
 
-        for caller in
+        // The iterator over the backward edges holds the read locks of the
+        // set. They must not be held across the awaits below: a task parked
+        // there keeps them while inserting/removing a backward edge blocks
+        // its worker thread synchronously on the same locks; once every
+        // worker that could resume this task is blocked that way, nothing
+        // makes progress any more. Take a snapshot of the callers first.
+        let callers: Vec<QueryID> =
             unsafe { database.get_backward_edges_unchecked(&query_id).await }
-        {
+                .into_iter()
+                .collect();
+
+        for caller in callers {
             counter += 1;
             // every 16 edges, yield to allow other tasks to run
             if counter >= 16 {
